@@ -4,8 +4,10 @@ mod ctx;
 mod driver;
 mod evidence;
 mod exec;
+mod fine;
 mod gen;
 mod lending;
+mod lifeworld;
 mod model;
 mod oracle;
 mod owning;
@@ -15,6 +17,7 @@ mod sched;
 mod shrink;
 mod special;
 mod spec;
+mod values;
 mod world;
 
 fn main() {
@@ -27,6 +30,29 @@ fn main() {
         }
         Some("replay") => driver::main_replay(&args[2..]),
         Some("shrink") => driver::main_shrink(&args[2..]),
+        Some("isolated") => props::main_isolated(),
+        Some("probe-chain") => {
+            // experiment: n make_refs then make_mut / teardown on a small stack
+            std::panic::set_hook(Box::new(|_| {}));
+            let n: u32 = args[2].parse().unwrap();
+            let kb: i64 = args[3].parse().unwrap();
+            let with_mut = args[4] == "mut";
+            let mut rng = rng::Rng::new(1);
+            let cfg = lifeworld::lending_config(false, &mut rng);
+            let mut steps = vec![spec::LendStep::Take { kind: spec::LendKind::MakeRefA, val: 1, n }];
+            if with_mut {
+                steps.push(spec::LendStep::MakeMut { val: 999_999 });
+            }
+            let scn = spec::Scenario {
+                prop: "C13".into(), base_seed: 1, run: 0, batch: "probe".into(), config: cfg, config2: None,
+                threads: vec![vec![spec::Op::LendSession { slot: 0, exclusive: true, steps }, spec::Op::Drop { slot: 0 }]],
+                sched: spec::SchedSpec { fine: false, strategy: spec::Strategy::RoundRobin, seed: 0, sites: 0, choices: vec![] },
+                knobs: vec![("stack_kb".into(), kb)],
+            };
+            let c = props::check(&scn);
+            println!("survived: violations {:?} harness {:?}", c.violations.len(), c.harness_error);
+            0
+        }
         _ => {
             eprintln!("usage: simctl run --prop Cxx [--tier quick|thorough] [--seed N] [--workers K] | replay <file> | shrink <in> <out>");
             2
